@@ -5,8 +5,8 @@ from props import judges
 from props.common import TRUSTED_BASE, ASSUMPTIONS
 
 ID = "C06"
-LEAN_MODULES = ["LexVerif.Props.C06", "LexVerif.Props.RoundNE", "LexVerif.Props.TablesWrite"]
-GEN = ["write_tables"]
+LEAN_MODULES = ["LexVerif.Props.C06", "LexVerif.Props.RoundNE", "LexVerif.Props.TablesWrite", "LexVerif.Props.Literals.WriteFloat"]
+GEN = ["write_tables", "literals"]
 TRUSTED = TRUSTED_BASE + [
     "binary.rs / hex.rs writers are not modelled in Lean yet: every output is evaluated EXACTLY (as a rational) by the Lean oracle and compared with the float's value, and re-parsed by the implementation",
 ]
